@@ -397,7 +397,11 @@ func loadFixtureCorpus() {
 				continue
 			}
 			info, err := e.Info()
-			if err != nil || info.Size() > 12*1024 {
+			limit := int64(12 * 1024)
+			if deep() {
+				limit = 64 * 1024
+			}
+			if err != nil || info.Size() > limit {
 				continue
 			}
 			b, err := os.ReadFile(filepath.Join(repoDir(), d, name))
